@@ -69,19 +69,29 @@ def run_histories(pid, seed, tier, lean, weights, oracle_step, nontrivial, quick
         kinds = set()
         bad = None
         for i, op in enumerate(ops):
-            st = im.step(op)
+            try:
+                st = im.step(op)
+            except Exception:
+                if bad is None: raise
+                break           # after a divergence the rest of the history may not fit the real state any more
             kinds.add(op['k']); res.bump(op['k'])
             if st['err']: res.bump('rejected:' + st['err'])
             if 'case' in op: res.bump(op['case'] + (' -> ' + st['err'] if st['err'] else ' -> accepted'))
-            probs = oracle_step(im, ops, i, st)
+            try:
+                probs = oracle_step(im, ops, i, st)
+            except Exception:
+                if bad is None: raise
+                break
             if probs:
                 bad = ('oracle', i, probs); break
-            if mo_steps is not None:
+            if mo_steps is not None and bad is None:
                 mo = mo_steps[i]
                 a = [st['err'], canon_out(op, st['out']), canon_obs(st['obs'])]
                 b = [mo['err'], canon_out(op, mo['out']), canon_obs(mo['obs'])]
                 if a != b:
-                    bad = ('diverge', i, {'impl': a, 'model': b}); break
+                    # implementation and model disagree: go on with the direct oracle alone — if the rest of the
+                    # history turns the disagreement into a violation of the property, that concrete input is reported
+                    bad = ('diverge', i, {'impl': a, 'model': b}); continue
                 if [st['out'], st['obs']] != [mo['out'], mo['obs']]:
                     res.drift += 1
         if nontrivial(kinds, ops):
